@@ -12,9 +12,9 @@ def run(res, tier, seed):
         'FunctionalExtensionality.functional_extensionality_dep (Coq standard library reals)',
     ]
     res.assumptions += [
-        'partial: the cyclic Sherman-Morrison solve and floating-point backward stability are not theorems; they are '
+        'partial: floating-point backward stability is not a theorem; it is '
         'measured by the exact-rational correspondence (backward error bound n*256*eps, forward 1e-9 on dominant systems)',
-        'Sylvester criterion (SPD => positive pivots) not formalised; positivity proved for strictly dominant matrices',
+        'SPD => positive pivots is proved for the non-cyclic solver (Schur-complement induction, C14_pivots_positive_of_spd); for the cyclic solver the non-degeneracy conditions of Sherman-Morrison are premises of the theorem (they hold for dominant systems in every correspondence case)',
     ]
     cr = C.coq_build('C14')
     res.add_coq(cr)
